@@ -84,6 +84,17 @@ func c04Case(w *rt.W, s uint64, cfg int, containers bool) {
 	if _, perr := size.DefaultParser(poison, size.DefaultRule); perr == nil {
 		fail("refused-input-accepted", "DefaultParser("+poison+")", "accepted", "an error")
 	}
+	// refusals that only a rule causes (a unit under RuleDisableUnit, an unknown key under RuleDisallowUnknownKeys, a disabled form)
+	switch s % 5 {
+	case 0:
+		_, _ = size.DefaultParser("1B", size.RuleDisableUnit)
+	case 1:
+		_, _ = size.DefaultParser([]byte(`{"value":1,"unit":"B","x":1}`), size.RuleEnableJSONObjectForm|size.RuleDisallowUnknownKeys)
+	case 2:
+		_, _ = size.DefaultParser(`"1 kB"`, size.RuleEnableJSONObjectForm)
+	case 3:
+		_, _ = size.DefaultParser(`{"value":1,"unit":"B"}`, size.RuleEnableJSONStringForm|size.RuleDisableUnit)
+	}
 	if s%3 == 0 { // the same refusal through the method encoding/json calls
 		var pz size.Size
 		if perr := pz.UnmarshalJSON([]byte(poison)); perr == nil && poison != "null" && poison != " null " {
